@@ -314,6 +314,47 @@ theorem valence_errors_exact (m m' : Mol) (hfix : fixStructure m = some m') :
     | none => rfl
     | some a => cases m.adj.lookup n <;> rfl
 
+/-- **Recalculating the pending-change set suffices — and is necessary.** `fix_structure` visits only the atoms in `_changed`
+    (`fixLoop ns`). If every atom *outside* `ns` already carries the count the rules give for the present structure, then after the
+    pass **every** atom does; an atom outside `ns` keeps exactly the count it had (so a structurally changed atom that an edit
+    forgot to put into `_changed` stays stale — the pass cannot repair it). -/
+theorem changed_set_suffices (m m' : Mol) (ns : List Nat) (hfix : fixLoop ns m = some m') :
+    (∀ p ∈ m'.atoms, ns.contains p.1 = true → some p.2.implH = calcImplicitMol m p.1) ∧
+    (∀ p ∈ m'.atoms, ns.contains p.1 = false → p ∈ m.atoms) ∧
+    ((∀ p ∈ m.atoms, ns.contains p.1 = false → some p.2.implH = calcImplicitMol m p.1) →
+      ∀ p ∈ m'.atoms, some p.2.implH = calcImplicitMol m p.1) := by
+  obtain ⟨ha, _, hall⟩ := fixLoop_spec m ns m m' (fun _ => rfl) hfix
+  have h1 : ∀ p ∈ m'.atoms, ns.contains p.1 = true → some p.2.implH = calcImplicitMol m p.1 := by
+    intro p hp hc
+    rw [ha, List.mem_map] at hp
+    obtain ⟨p0, _, e⟩ := hp
+    have hk : p.1 = p0.1 := by rw [← e]; simp only [fixEntry]; split <;> rfl
+    have hc0 : ns.contains p0.1 = true := hk ▸ hc
+    have hs := hall p0.1 (by simpa using hc0)
+    subst e
+    simp only [fixEntry, hc0, if_true, withH]
+    cases hcalc : calcImplicitMol m p0.1 with
+    | none => simp [hcalc] at hs
+    | some o => rfl
+  have h2 : ∀ p ∈ m'.atoms, ns.contains p.1 = false → p ∈ m.atoms := by
+    intro p hp hc
+    rw [ha, List.mem_map] at hp
+    obtain ⟨p0, hp0, e⟩ := hp
+    have hk : p.1 = p0.1 := by rw [← e]; simp only [fixEntry]; split <;> rfl
+    have hc0 : ns.contains p0.1 = false := hk ▸ hc
+    have : p = p0 := by rw [← e]; simp only [fixEntry, hc0]; rfl
+    exact this ▸ hp0
+  refine ⟨h1, h2, ?_⟩
+  intro hout p hp
+  cases hc : ns.contains p.1 with
+  | true => exact h1 p hp hc
+  | false => exact hout p (h2 p hp hc) hc
+
+/-- ethanol whose oxygen was re-charged to −1 while only the carbon is pending: the oxygen keeps its stale count 1 -/
+example : (fixLoop [1] ⟨[(1, {z := 6, implH := some 3}), (2, {z := 8, charge := -1, implH := some 1})],
+    [(1, [(2, ⟨1, none⟩)]), (2, [(1, ⟨1, none⟩)])]⟩).map (fun m => m.atoms.map (·.2.implH)) = some [some 3, some 1] := by
+  decide +kernel
+
 /-- the pass succeeds on every molecule whose adjacency only mentions existing atoms (what the Graph API maintains) -/
 theorem fixStructure_total (m : Mol)
     (hclosed : ∀ n ∈ m.ids, ∃ nb, m.adj.lookup n = some nb ∧ ∀ kb ∈ nb, (m.atoms.lookup kb.1).isSome = true)
